@@ -66,6 +66,9 @@ where
     c.push(Val::Array(SmallVec::from_vec(vec![f(1.5)])));
     c.push(Val::Array(SmallVec::from_vec(vec![f(1.0), f(2.0), f(3.0)])));
     c.push(Val::Array(SmallVec::from_vec(vec![f(1.0), f(2.0), f(3.0), f(4.0), f(5.0)])));
+    // arrays longer than the largest i8 / i16 (index and length arithmetic in the integer type)
+    c.push(Val::Array((0..200).map(|k| f((k % 7) as f64)).collect()));
+    c.push(Val::Array((0..33000).map(|k| f((k % 5) as f64)).collect()));
     c.push(Val::None);
     c.push(Val::Error(exmex::ExError::new("catalogue error value")));
     c
@@ -249,7 +252,7 @@ pub fn def() -> PropDef {
                 rule: "i32/f64: all catalogue cells; judged where the documented rules demand an error value (overflow, division/remainder by zero, MIN % -1, -MIN, abs(MIN), invalid casts of NaN/inf/out-of-range floats, out-of-range shifts and powers, wrong operand kinds, error operands); non-trivial = a boundary operand",
                 kind: Kind::Indexed { n: n_catalogue, f: error_cells, exhaustive: true },
             },
-            SubCheck { name: "totality_i32_f64", rule: "no panic: every operator x every ordered pair of 53 special operands (incl. the floats at the ends of the integer type's range and their neighbours), Val<i32,f64>", kind: Kind::Indexed { n: n_tot, f: totality_i32_f64, exhaustive: true } },
+            SubCheck { name: "totality_i32_f64", rule: "no panic: every operator x every ordered pair of 55 special operands (incl. the floats at the ends of the integer type's range and their neighbours, and arrays of 200 and 33000 elements), Val<i32,f64>", kind: Kind::Indexed { n: n_tot, f: totality_i32_f64, exhaustive: true } },
             SubCheck { name: "totality_i64_f32", rule: "no panic: the same for Val<i64,f32>", kind: Kind::Indexed { n: n_tot, f: totality_i64_f32, exhaustive: true } },
             SubCheck { name: "totality_i8_f32", rule: "no panic: the same for Val<i8,f32>", kind: Kind::Indexed { n: n_tot, f: totality_i8_f32, exhaustive: true } },
             SubCheck { name: "totality_i16_f64", rule: "no panic: the same for Val<i16,f64>", kind: Kind::Indexed { n: n_tot, f: totality_i16_f64, exhaustive: true } },
